@@ -50,7 +50,7 @@ def op_call(d, args):
 
 
 def op_exec(d, kw, args):
-    ex = d.executor(**kw)
+    ex = d.executor(**S.spell_selections(kw))
 
     async def a():
         return await ex(*args)
@@ -59,6 +59,8 @@ def op_exec(d, kw, args):
 
 
 def op_setup(d, kw):
+    kw = S.spell_selections(kw)
+
     async def a():
         return await d.setup(**kw)
 
